@@ -43,5 +43,8 @@ ENTRY = dict(
                               "a delivery that has not returned after 700 ms is taken as blocked"],
     assumptions=["deliveries are issued one at a time at quiescence (no delivery concurrent with a token arriving at a catch event)",
                  "start events carry no event definitions; catch events are plain (not parallel multiple) in the harness programs",
-                 "the reader itself never blocks (tokens wait on their reply channel, the tracer accepts traces); D21 is outside this model"],
+                 "the reader itself never blocks (tokens wait on their reply channel, the tracer accepts traces); the late-loser "
+                 "case behind an event-based gateway (D21, repaired in /repo) is guarded by the predicate on the ebg shape only",
+                 "activities carry no boundary events, so their ConsumeEvent forwards to nobody and returns; only start and "
+                 "intermediate catch events are inbox consumers in the programs (no intermediate throw events)"],
 )
